@@ -46,6 +46,7 @@ namespace
         std::string wire;
         std::vector<size_t> cuts;
         // stall
+        bool drip       = false; // body stall past the deadline: keep sending a byte now and then instead of going silent
         size_t stall_at = 0; // bytes sent before the pause
         double stall_s  = 0;
         std::string where;
@@ -141,8 +142,30 @@ namespace
         {
             // stalled past the deadline: the server must answer 408 and close, without our help
             double deadline = (s.where == "body" ? tb : std::min(th, tb));
+            // "drip" form of a body stall: the client is never silent for long - one more body byte every
+            // 0.1-0.4 s, each gap far below the body time-out - but the request is not complete by the
+            // deadline either: the time-out bounds the whole request, not the pause between two reads
+            std::atomic<bool> stop_drip { false };
+            std::thread dripper;
+            if (s.drip)
+            {
+                double gap = std::max(0.1, std::min(0.4, deadline / 4));
+                dripper    = std::thread([&, gap] {
+                    size_t pos = s.stall_at;
+                    while (!stop_drip && pos + 1 < s.wire.size())
+                    {
+                        net::sleep_ms(int(gap * 1000));
+                        if (stop_drip || !net::send_all(fd, s.wire.data() + pos, 1))
+                            break;
+                        ++pos;
+                    }
+                });
+            }
             int wait_ms     = int((deadline + 1.6 - (net::now_s() - t0)) * 1000);
             bool ok         = net::read_message(fd, carry, true, m, std::max(wait_ms, 100), err);
+            stop_drip       = true;
+            if (dripper.joinable())
+                dripper.join();
             if (!ok)
             {
                 s.fail_sig = "C14/timing/no-408";
@@ -313,12 +336,37 @@ namespace verif
                     s.nontrivial = true;
                 if (s.expect_status == 408 && th != tb)
                     s.nontrivial = true;
-                s.desc = "stall script " + s.tag + ": pause of " + std::to_string(s.stall_s).substr(0, 4) + " s " + s.where + " after " + std::to_string(s.stall_at) + " bytes, expecting " + std::to_string(s.expect_status);
+                // (derived from the stall offset, no choice consumed; needs body bytes left to drip)
+                s.drip = s.where == "body" && s.expect_status == 408 && s.stall_at % 2 == 0 && s.wire.size() - s.stall_at >= 40;
+                if (s.drip)
+                    rep.label("stall:body:past(dripping, never silent)");
+                s.desc = "stall script " + s.tag + ": " + (s.drip ? "one body byte every 0.1-0.4 s for " : "pause of ") + std::to_string(s.stall_s).substr(0, 4) + " s " + s.where + " after " + std::to_string(s.stall_at) + " bytes, expecting " + std::to_string(s.expect_status);
                 rep.label("stall:" + s.where + (s.expect_status == 408 ? ":past" : ":in-time"));
             }
             nt |= s.nontrivial;
             if (i < 5)
                 desc_all += s.desc + "; ";
+        }
+        if (with_stalls && n % 2 == 0)
+        {
+            // one more connection (derived from the script count, no choice consumed): the dripping form of a body
+            // stall with plenty of body left, so that the client can stay active past the deadline
+            Script s;
+            s.kind          = Script::Stall;
+            s.tag           = "/drip";
+            size_t head_len = 0;
+            s.wire          = make_request(s.tag, std::min<size_t>(L, 300), head_len);
+            s.where         = "body";
+            s.stall_at      = head_len + 1;
+            s.stall_s       = tb + 1.1;
+            s.expect_status = 408;
+            s.drip          = s.wire.size() - s.stall_at >= 40;
+            s.nontrivial    = true;
+            s.desc          = "stall script " + s.tag + ": one body byte every 0.1-0.4 s after " + std::to_string(s.stall_at) + " bytes, never complete, expecting 408 at the body time-out";
+            rep.label(s.drip ? "stall:body:past(dripping, never silent)" : "stall:body:past");
+            nt = true;
+            desc_all += s.desc + "; ";
+            scripts.push_back(s);
         }
         rep.sample(cfg + " | " + desc_all);
         if (nt)
